@@ -4,6 +4,7 @@ import Restli.Model.RenderRor2
 import Restli.Model.Ror2Reader
 import Restli.Model.RenderJson
 import Restli.Model.TreeReader
+import Restli.Model.QueryParams
 /-! Driver glue for the codec model: s-expression parsing of schemas, types, values and
 exclusion specs; canonical printing of outcomes. -/
 namespace Restli.Codec
@@ -163,16 +164,6 @@ def showTRes (r : TRes Value) : String :=
   | .err .fixed => "err other"
   | .panic => "panic"
   | .unmodelled => "unmodelled float-syntax"
-
-def splitOn (sep : UInt8) (s : Bytes) : List Bytes :=
-  let rec go : Bytes → Bytes → List Bytes
-    | [], cur => [cur.reverse]
-    | c :: cs, cur => if c == sep then cur.reverse :: go cs [] else go cs (c :: cur)
-  go s []
-
-def cutAt (sep : UInt8) : Bytes → Bytes × Bytes
-  | [] => ([], [])
-  | c :: cs => if c == sep then ([], cs) else let (a, b) := cutAt sep cs; (c :: a, b)
 
 /-- `ParseQueryParams("p=" + data)["p"]`: `none` = parse error, `some none` = no such key -/
 def queryParamP (data : Bytes) : Option (Option Bytes) :=
